@@ -317,6 +317,17 @@ class FreeEnergy(InterpolatableFunction):
             eigs = scipylinalg.eigvalsh(d2V)
             return float(min(eigs))
 
+        def leftBranch(
+            minimum: np.ndarray, integrated: np.ndarray, stepLength: float
+        ) -> bool:
+            # The integrator follows the minimum to within the tolerances, so a
+            # re-minimisation may only correct the point by a small amount. If it moves
+            # the point by more than the whole step (and by much more than the absolute
+            # tolerance), the minimum being traced no longer exists and the minimiser
+            # has rolled into another one.
+            jump = np.linalg.norm(np.asarray(minimum) - np.asarray(integrated))
+            return bool(jump > max(stepLength, 100 * tolAbsolute))
+
         # arrays to store results
         TList = np.full(1, T0)
         fieldList = np.full((1, phase0.numFields()), Fields((phase0,)))
@@ -355,12 +366,21 @@ class FreeEnergy(InterpolatableFunction):
                     # a singular Hessian means the minimum is about to disappear
                     logging.error(str(error) + f" at T={ode.t}")
                     break
+                # Field-space length of the step just taken, used below to recognise a
+                # minimiser that has left the branch being traced
+                stepLength = np.linalg.norm(ode.y - ode.y_old)
                 if paranoid:
+                    if spinodalEvent(ode.t, ode.y) <= 0:
+                        # the integrated point is already unstable: re-minimising from
+                        # here would slide into a different phase
+                        break
                     phaset, potentialEffT = self.effectivePotential.findLocalMinimum(
                         Fields((ode.y)),
                         ode.t,
                         tol=rTol,
                     )
+                    if leftBranch(phaset[0], ode.y, stepLength):
+                        break
                     ode.y = phaset[0]
                 if spinodalEvent(ode.t, ode.y) <= 0:
                     break
@@ -376,6 +396,8 @@ class FreeEnergy(InterpolatableFunction):
                                 tol=extraTol,
                             )
                         )
+                        if leftBranch(phaset[0], ode.y, stepLength):
+                            break
                         ode.y = phaset[0]
                     else:
                         # compute Veff
